@@ -189,6 +189,7 @@ def run(ctx):
                          "inputs equal to and minimally different from the literal incl. other-typed look-alikes; compares value AND type")
     progcases.run_cases(ctx, corpus_cases(ctx) + make_cases(ctx, n))
     literal_twins(ctx, max(20, n // 20))
+    progcases.run_cases(ctx, gen.membership_cases(ctx.rng, 60 if ctx.tier == 'quick' else 1500), check_model=False, want_stages=False)
     k2_probes(ctx)
 
 
